@@ -62,7 +62,11 @@ def ins_corpus(tier, seed):
     s = seed * 1000 + 950
     specs = [ins_spec("gauss2", s + 1, 100), ins_spec("rosen2", s + 2, 100, draw_constant=False),
              ins_spec("gauss4", s + 3, 100, reparameterisation=None, strict_threshold=True),
-             ins_spec("angle2", s + 4, 100, clip=True)]
+             ins_spec("angle2", s + 4, 100, clip=True),
+             # priors that are -inf inside the unit hypercube: candidates rejected by the prior filter must not
+             # count towards the requested number
+             ins_spec("disc2", s + 5, 60, max_iteration=4), ins_spec("disc2", s + 6, 100, draw_constant=False),
+             ins_spec("rect3", s + 7, 60, max_iteration=3)]
     if tier == "thorough":
         k = 5
         for model in ("gauss2", "rosen2", "gauss4", "angle2"):
